@@ -39,6 +39,27 @@ class Gen:
         if t == VEC:
             return "[" + ", ".join(self.lit(INT) for _ in range(r.randint(0, 3))) + "]"
 
+    def const_expr(self, t, d):
+        """an expression over literals only: what Constant_Fold / Partial_Fold / If see"""
+        r = self.r
+        if t == INT:
+            if d >= 2 or r.random() < 0.3:
+                return r.choice(["0", "1", "2", "3", "7", "10", "5", "4", "100", "int(3)", "int(7)", "2147483647" if r.random() < 0.1 else "6"])
+            k = r.random()
+            if k < 0.6:
+                return "(%s %s %s)" % (self.const_expr(INT, d + 1), r.choice(["+", "-", "*", "/", "%", "<<", "&", "|", "^"]), self.const_expr(INT, d + 1))
+            if k < 0.8:
+                return "(%s%s)" % (r.choice(["-", "+", "~"]), self.const_expr(INT, d + 1))
+            return "(%s ? %s : %s)" % (self.const_expr(BOOL, d + 1), self.const_expr(INT, d + 1), self.const_expr(INT, d + 1))
+        if d >= 2 or r.random() < 0.3:
+            return r.choice(["true", "false"])
+        k = r.random()
+        if k < 0.4:
+            return "(%s %s %s)" % (self.const_expr(INT, d + 1), r.choice(["<", "<=", ">", ">=", "==", "!="]), self.const_expr(INT, d + 1))
+        if k < 0.8:
+            return "(%s %s %s)" % (self.const_expr(BOOL, d + 1), r.choice(["&&", "||"]), self.const_expr(BOOL, d + 1))
+        return "(!%s)" % self.const_expr(BOOL, d + 1)
+
     def arg(self, env, depth):
         """a call argument: parameters alias the caller's variable, so a loop counter is passed by value"""
         e = self.expr(env, INT, depth + 1)
@@ -56,6 +77,9 @@ class Gen:
             if vs and r.random() < 0.6:
                 return r.choice(vs)
             return self.lit(t)
+        if self.f.get("opt") and t in (INT, BOOL) and r.random() < self.f["opt"]:
+            self.note("constant-expression")
+            return self.const_expr(t, 0)
         if t == INT and self.f.get("callbacks") and r.random() < self.f["callbacks"]:
             self.note("callback")
             return "cb(%s)" % self.expr(env, INT, depth + 1)
@@ -218,6 +242,20 @@ class Gen:
                 v = r.choice(vs)
                 env[n] = (INT, True)
                 return "%s &%s = %s; %s += 1" % (r.choice(["var", "auto"]), n, v, n)
+        if self.f.get("opt") and r.random() < 0.5:
+            c = r.random()
+            n = self.fresh("k")
+            if c < 0.25:
+                self.note("conversion-bound-by-reference")
+                return "auto &%s = %s(%s); %s; print(%s)" % (n, r.choice(["int", "long"]), self.lit(INT), r.choice(["%s += 1", "++%s", "%s = 9"]) % n, n)
+            if c < 0.5 and in_fn:
+                self.note("trailing-return")
+                return "return %s" % self.expr(env, INT, depth + 1)
+            if c < 0.75:
+                self.note("single-statement-block")
+                return "{ print(%s) }" % self.expr(env, INT, depth + 1)
+            self.note("constant-if")
+            return "if (%s) { print(%s) } else { print(%s) }" % (self.const_expr(BOOL, 0), self.expr(env, INT, depth + 1), self.expr(env, INT, depth + 1))
         if r.random() < self.error_rate * 4:
             self.note("injected-error")
             return r.choice(["undefined_%d" % r.randint(0, 9), "print(1 / 0)", "throw(%s)" % self.lit(INT), "nofun(1)", "if (1) { }", "var q%d = 1; var q%d = 2" % ((self.counter,) * 2)])
